@@ -16,6 +16,7 @@ import (
 	"os"
 	"strings"
 
+	"github.com/bufbuild/protovalidate-go"
 	"github.com/pentops/j5/internal/verifh/vh"
 	"github.com/pentops/j5/lib/j5schema"
 	"google.golang.org/protobuf/reflect/protoreflect"
@@ -85,6 +86,11 @@ func execRules(h *vh.H, op string) string {
 	}
 	emitted := dumpFC(fieldConstraints(fd)) + " pres=" + b01(fd.HasPresence())
 
+	// one validator per op: it caches the evaluators of this op's message descriptor only
+	validator, verr := protovalidate.New()
+	if verr != nil {
+		return "err validator"
+	}
 	var verdicts strings.Builder
 	nontrivial := false
 	for _, vt := range valToks {
@@ -98,7 +104,7 @@ func execRules(h *vh.H, op string) string {
 			verdicts.WriteByte('?')
 			continue
 		}
-		verdict, detail := pvVerdict(msg)
+		verdict, detail := pvVerdict(validator, msg)
 		verdicts.WriteByte(verdict)
 		h.Count("rules.verdict." + string(verdict))
 
